@@ -214,6 +214,10 @@ class GeckoSnapshot:
         with open(file) as f:
             for line in f:
                 if "Snapshot" in line:
+                    # A new snapshot starts: one still in progress (nothing but INFO
+                    # lines since it began) is complete
+                    if snapshot is not None:
+                        snapshots.append(snapshot)
                     snapshot = GeckoSnapshot()
                 if snapshot:
                     if "INFO" in line:
